@@ -1,5 +1,6 @@
 #include "single.h"
 
+#include "ambient.h"
 #include "statics.h"
 
 #include <algorithm>
@@ -53,6 +54,7 @@ ExecReport simExec(const Case &c, bool linkedAuditHook) {
     }
     rep.res = execOp(SIM, c.op, opts);
     heapBind(nullptr);
+    ambientRestore(true);  // hygiene: the next execution starts from the default rounding mode / locale
     if (rep.res.status != CALL_RETURNED)
         heapAbandonOp(&rep.heap);
     else
@@ -67,6 +69,7 @@ bool attributable(const Op &op, Result &ref, std::string &why) {
     refallocSweep();
     ref = execOp(REF, op, o);
     refallocSweep();
+    ambientRestore(true);
     if (ref.skipped) {
         why = "harness precondition not met (output too large / no defined size)";
         return false;
@@ -83,6 +86,7 @@ bool attributable(const Op &op, Result &ref, std::string &why) {
     }
     Result again = execOp(REF, op, o);
     refallocSweep();
+    ambientRestore(true);
     if (!again.sameAs(ref)) {
         why = "reference execution is not repeatable";
         return false;
